@@ -13,10 +13,21 @@ CLASSES = {
     'C03': {'op_dims', 'mono_dims', 'linear_dims', 'components_dims', 'not_equivariant'},
     'C04': {'op_semantics', 'twin_mismatch', 'twin_value_differs'},
     'C05': {'not_inverse', 'round_trip'},
-    'C18': {'definition_missing', 'definition_formula'},
+    'C18': {'definition_missing', 'definition_formula', 'tensor_definition', 'formula_value', 'tensor_definition_value'},
 }
 ROLE = {'IsobaricHeatCapacity': 1, 'SpecificIsobaricHeatCapacity': 1, 'IsochoricHeatCapacity': 2, 'SpecificIsochoricHeatCapacity': 2,
         'GasConstant': 3, 'SpecificGasConstant': 3, 'HeatCapacityRatio': 4}
+TENSOR_DEFS = {   # relation name -> (numeric kind, exact-event definition key)
+    'Strain(DisplacementGradient)': (1, 'strain_of_gradient'), 'DisplacementGradient.Strain()': (1, 'strain_of_gradient'),
+    'StrainRate(VelocityGradient)': (1, 'strain_of_gradient'), 'VelocityGradient.StrainRate()': (1, 'strain_of_gradient'),
+    'Strain(VolumetricThermalExpansionCoefficient,TemperatureDifference)': (2, 'volumetric_strain'),
+    'VolumetricThermalExpansionCoefficient * TemperatureDifference': (2, 'volumetric_strain'),
+    'TemperatureDifference * VolumetricThermalExpansionCoefficient': (2, 'volumetric_strain'),
+    'Stress.VonMises()': (3, 'von_mises'),
+    'Stress.Traction(Direction)': (4, 'traction'), 'Traction(Stress,Direction)': (4, 'traction'),
+    'Stress(StaticPressure)': (5, 'isotropic_stress'), 'StaticPressure.Stress()': (5, 'isotropic_stress'),
+    'Stress.PlanarTraction(PlanarDirection)': (6, 'planar_traction'), 'PlanarTraction(Stress,PlanarDirection)': (6, 'planar_traction'),
+}
 DEF_SIG = {   # definition key -> (kind, name of the relation in the graph)
     'dynamic_pressure': 'DynamicPressure(MassDensity,Speed)',
     'dynamic_kinematic_pressure': 'DynamicKinematicPressure(Speed)',
@@ -62,6 +73,52 @@ def components_class(ev, rels, fps, seed):
     for i, r in enumerate(cand):
         if res[2 * i] == vals[2 * i] and res[2 * i + 1] == vals[2 * i + 1]:
             fps[r['id']]['cls'] = 'components'
+
+
+def tensor_def_events(ev, rels, seed):
+    import random
+    rnd = random.Random(seed + 5)
+    byname = {r['name']: r for r in rels}
+    q, meta = [], []
+    for nm, (kind, key) in TENSOR_DEFS.items():
+        if nm not in byname:
+            continue
+        r = byname[nm]
+        for num in 'fdl':
+            for rep in range(3):
+                if key == 'strain_of_gradient':
+                    a = [2 * rnd.randint(-9, 9) for _ in range(9)]
+                    b = []
+                elif key == 'volumetric_strain':
+                    a = [3 * rnd.randint(1, 9)]
+                    b = [rnd.choice([-7, -5, -2, 2, 4, 5, 8])]
+                elif key == 'von_mises':
+                    a = [rnd.randint(-6, 6) for _ in range(6)]
+                    b = []
+                elif key in ('traction', 'planar_traction'):
+                    a = rnd.sample(range(1, 10), 6)
+                    a = [x * rnd.choice((1, -1)) for x in a]
+                    n_ = 3 if key == 'traction' else 2
+                    ax = rnd.randrange(n_)
+                    b = [(rnd.choice((1, -1)) if i == ax else 0) for i in range(n_)]
+                else:
+                    a = [rnd.randint(-9, 9) or 4]
+                    b = []
+                flat = [float(x) for x in a] + [0.0] * (9 - len(a)) + [float(x) for x in b]
+                q.append((r['id'], num, flat))
+                meta.append((r, key, num, a, b))
+    res = ev.batch(q) if q else []
+    out = []
+    for (r, key, num, a, b), o in zip(meta, res):
+        if key == 'von_mises':
+            v = o[0] * o[0] * 2 if o else float('nan')
+            exact = o is not None and abs(v - round(v)) <= 1e-4 * max(1.0, abs(v)) * (1e3 if num == 'f' else 1)
+            oi = [int(round(v))] if exact else []
+        else:
+            exact = o is not None and all(x == int(x) for x in o)
+            oi = [int(x) for x in o] if exact else []
+        out.append({'e': 'TensorDef', 'def': key, 'rel': r['id'], 'num': num, 'a': a, 'b': b, 'out': oi, 'exact': exact})
+    return out
 
 
 def derive_pairs(rels):
@@ -170,12 +227,26 @@ def numeric_layer(exe, rels, fps, qs, stddim, twins, pairs, wd, n):
             if fps[p['fwd']]['cls'] == 'other' or fps[p['back']]['cls'] == 'other':
                 roles = [ROLE.get(a, 0) for a in (fw['args'] + ['x'])[:2]]
             f.write(f"{p['fwd']} {p['back']} {len(fw['args'])} {p['posA'] - 1} {p['posC'] - 1} {sq} {lin} {roles[0]} {roles[1]}\n")
-    jobs = [('equiv', 'equiv.txt', n), ('twin', 'twin.txt', n * 5), ('inverse', 'inverse.txt', n * 5)]
+    from fractions import Fraction as Fr
+    import scan as _scan
+    with open(os.path.join(wd, 'mono.txt'), 'w') as f:
+        for r in rels:
+            fp = fps[r['id']]
+            if fp['cls'] == 'mono' and fp['c2'] is not None and all(a not in qgen.NORMALISED for a in r['args']):
+                q, k = _scan.bag_value(fp['c2'])
+                if k == 0:
+                    f.write(f"{r['id']} {len(r['args'])} {q.numerator} {q.denominator} {1 if fp['neg'] else 0} " + ' '.join(str(d) for d in fp['deg2']) + '\n')
+    byname = {r['name']: r for r in rels}
+    with open(os.path.join(wd, 'tdef.txt'), 'w') as f:
+        for nm, kind in TENSOR_DEFS.items():
+            if nm in byname:
+                f.write(f"{byname[nm]['id']} {kind[0]}\n")
+    jobs = [('equiv', 'equiv.txt', n), ('twin', 'twin.txt', n * 5), ('inverse', 'inverse.txt', n * 5), ('mono', 'mono.txt', n * 5), ('tdef', 'tdef.txt', n * 10)]
 
     def one(j):
         mode, fn, k = j
         return C.run([exe, mode, os.path.join(wd, fn), str(C.SEED), str(k)], timeout=1500).stdout.decode()
-    with cf.ThreadPoolExecutor(3) as ex:
+    with cf.ThreadPoolExecutor(5) as ex:
         outs = list(ex.map(one, jobs))
     evs = []
     for o in outs:
@@ -197,6 +268,7 @@ def run(n=40):
     try:
         fps = F.fingerprints(ev, rels, qs, C.SEED)
         components_class(ev, rels, fps, C.SEED)
+        tdefs = tensor_def_events(ev, rels, C.SEED)
     finally:
         ev.close()
     stddim = {u['type']: u['dim'] for u in uout['unit_table'] if u['std']}
@@ -215,7 +287,7 @@ def run(n=40):
     pairs = derive_pairs(rels)
     byname = {r['name']: r for r in rels}
     defs = [{'e': 'Def', 'def': k, 'rel': byname[n]['id'] if n in byname else -1} for k, n in sorted(DEF_SIG.items())]
-    facts += twins + pairs + defs
+    facts += twins + pairs + defs + tdefs
     wd = C.work_dir('rel')
     facts += numeric_layer(exe, rels, fps, qs, stddim, twins, pairs, wd, n)
     fp_ = C.write_ndjson(os.path.join(wd, 'relfacts.ndjson'), facts)
